@@ -83,6 +83,11 @@ func NewEncryptedISO(f afero.File, data1 []byte, clearRegions bool) (*EncryptedI
 		return nil, fmt.Errorf("read unencrypted regions count failed: %w", err)
 	}
 
+	// regions map must fit to the first sector, don't trust larger numbers (and don't allocate memory for them)
+	if maxCount := uint32((int(sectorSize) - binary.Size(hdr)) / binary.Size(unencryptedRegion{})); hdr.Count > maxCount {
+		return nil, fmt.Errorf("unexpected unencrypted regions count (%d)", hdr.Count)
+	}
+
 	unencryptedRegions := make([]unencryptedRegion, hdr.Count)
 	err = binary.Read(f, binary.BigEndian, unencryptedRegions)
 	if err != nil {
